@@ -233,24 +233,27 @@ for _p in []:
 # rules added on 2026-09-26 (sixth to eighth seeded batch, third refactoring batch): what each adds to the note of its property
 _ADDED = {
     "C02": " R-XLATE reads the translation scheme of every simple term form off the folded compile_with_cont; R-SHAREPATH (share adds the lifted "
-           "definition on every path or hands its argument back), R-SORTMAP, R-ETA (no eta-contraction without a free-variable test).",
+           "definition on every path or hands its argument back), R-SORTMAP, R-ETA (no eta-contraction without a free-variable test); R-SEED: no name is drawn before the body's binders are in the set.",
     "C03": " R-COUNTER (a lent copy of the identifier counter is read again), R-SORTMAP (sort-to-sort tables are the identity, the mirror image or "
            "the complement and match what the caller exchanges), R-ETA, R-FOCUSCUT (a cut of two sides that are no xtors or operations focuses "
            "to the cut of the focused sides, for every pair of shapes).",
     "C04": " R-CUTKIND declares the free variables of its symbolic bodies per variant and judges critical pairs for evaluation order; R-USEALL treats "
-           "the sub-terms of a by-value node as inputs of their own; R-COUNTER, R-SHAREPATH, R-SORTMAP, R-ETA, R-LIFTSTORE, R-LABEL.",
+           "the sub-terms of a by-value node as inputs of their own; R-COUNTER, R-SHAREPATH, R-SORTMAP, R-ETA, R-LIFTSTORE, R-LABEL; renaming chains, eta-expansions and the clauses generated for "
+           "critical pairs are folded on concrete declarations.",
+    "C13": " Two prints in a row are generated onto each other (with the statement comment in between) and executed symbolically.",
+    "C16": " R-PSPAN: no printer of the Fun syntax tree reads a source span.",
     "C05": " R-LINCTX also folds Literal, Op and PrintI64::linearize over every environment of up to three variables.",
     "C11": " R-MEMRC: share_block_n / erase_block of register and spilled temporaries against the reference-counting scheme; the substitute cases "
            "include a variable of an enumeration type (null first temporary).",
-    "C12": " R-TYWF, R-LINSUBST and R-LINCTX (well-scopedness after linearization), R-IDXGUARD, R-ETA, R-TYRULE (binders of a clause stay in that clause).",
+    "C12": " R-TYWF, R-LINSUBST and R-LINCTX (well-scopedness after linearization), R-IDXGUARD, R-ETA, R-TYRULE (binders of a clause stay in that clause), R-SEED.",
     "C14": " R-REGFILE (every environment position gets an existing, unreserved, distinct location); clause order is decided by R-TYRULE's "
            "Case/New judgements; R-NAMEPRINT (no line-break opportunity inside a printed name).",
     "C15": " R-TYRULE folds the typing rule of every term form, including Case and New over every clause list of up to three clauses (accepted iff "
-           "one clause per xtor; clauses in declaration order) and argument lists of length 0-2; R-TYWF; R-KEYED.",
+           "one clause per xtor; clauses in declaration order) and argument lists of length 0-2; R-TYWF; R-KEYED; R-NAMEEQ (names are compared whole).",
     "C17": " R-TRUNC (artefacts are written into empty files); R-AMBIENT also covers the command line and the driver; R-CACHEKEY (the driver's caches are keyed by the "
            "whole path, not by a projection of it, helpers followed).",
     "C18": " R-IDXGUARD (a length test in front of a constant index covers it); R-FVSCOPE, R-TYWF and R-TYRULE guard invariants whose loss ends in "
-           "a panic of a later stage.",
+           "a panic of a later stage; R-NAMEPRINT.",
     "C19": " R-ONCE (lift translates what it shares once), R-LIFTSTORE (the collection of lifted definitions is only added to), R-SHAREPATH, "
            "R-XLATE (a continuation is placed where the translation scheme places it, not substituted into several positions).",
     "C20": " The print-call classes of R-ABI are part of the check (live variables survive the print primitives); R-TEMPLATE reads strto* conversions with "
